@@ -129,7 +129,7 @@ impl GenState {
     }
 }
 
-pub const SHAPE_NAMES: &[&str] = &["walk", "ring", "ring+chords", "clique", "cycle+tail", "two-cycles-shared", "self-loops", "multigraph", "unequal-degree", "chain"];
+pub const SHAPE_NAMES: &[&str] = &["walk", "ring", "ring+chords", "clique", "cycle+tail", "two-cycles-shared", "self-loops", "multigraph", "unequal-degree", "chain", "hub"];
 
 /// Emit a structured shape as explicit calls. Returns the calls; the handles
 /// `0..k` are the original outside handles of objects `0..k`.
@@ -219,6 +219,26 @@ pub fn structured(rng: &mut Rng, kn: &Knobs, g: &mut GenState) -> Vec<Op> {
         9 => {
             for i in 0..k.saturating_sub(1) {
                 edges.push((i, i + 1, mult(rng)));
+            }
+        }
+        10 => {
+            // hub: object 0 adopts and is adopted by many peers, so that its table
+            // (and the trace's map) grows past the initial capacities
+            for i in 1..k {
+                match rng.below(4) {
+                    0 => edges.push((0, i, mult(rng))),
+                    1 => edges.push((i, 0, mult(rng))),
+                    _ => {
+                        edges.push((0, i, mult(rng)));
+                        edges.push((i, 0, mult(rng)));
+                    }
+                }
+                if rng.chance(1, 4) {
+                    edges.push((i, 1 + rng.below(k - 1), 1));
+                }
+            }
+            if rng.chance(1, 3) {
+                edges.push((0, 0, mult(rng)));
             }
         }
         _ => {
